@@ -37,49 +37,51 @@ Theorem C09_unregister_frame : forall st k ch now,
   (NoDup (keys (d_svcs st)) -> aget k (d_svcs st') = None).
 Proof. exact unregister_frame. Qed.
 
-(* GOODBYE CONTENT.  What is sent on OK: per interface and family that has an address of the
-   service in its subnet, one response with PTR, subtype PTR, SRV, TXT and those addresses ... *)
+(* GOODBYE CONTENT.  What is sent on OK: the goodbyes of the service, then the reply; the same
+   packets are queued once for now + 120. *)
 Theorem C09_goodbye_packets : forall st k ch now s,
   aget k (d_svcs st) = Some s ->
   unregister st k ch now =
   (mkD (d_intfs st) (d_regs st) (adel k (d_svcs st))
-       (d_retrans st ++ map (resend_of now) (goodbyes_of s (d_intfs st))) (d_mon st) (d_dead st) (d_mif4 st),
-   map send_of (goodbyes_of s (d_intfs st)) ++ [OReply ch true]).
+       (d_retrans st ++ map (resend_of now) (goodbyes_of st s)) (d_mon st) (d_dead st) (d_os st) (d_sel st),
+   map send_of (goodbyes_of st s) ++ [OReply ch true]).
 Proof. exact unregister_found. Qed.
 
-Theorem C09_goodbye_is_spec_of_the_code : forall st s,
-  map (fun g : N * bool * omsg => let '(i, v4, m) := g in (i, v4, Mcast, m)) (goodbyes_of s (d_intfs st))
-  = spec_goodbyes st false false s.
-Proof. exact goodbyes_are_spec_code. Qed.
+(* ... and these ARE the goodbyes the property asks for (formerly refuted in two classes): per
+   interface where the service is ANNOUNCED and per family with an address of the service in the
+   subnet, one response with PTR, subtype PTR, SRV, TXT and those addresses under the names MOST
+   RECENTLY ANNOUNCED there (spec_goodbyes st resolved:=true announced_only:=true). *)
+Theorem C09_goodbye_is_the_specified_one : forall st s,
+  map (fun g : N * bool * omsg => let '(i, v4, m) := g in (i, v4, Mcast, m)) (goodbyes_of st s)
+  = spec_goodbyes st true true s.
+Proof. exact goodbyes_are_spec. Qed.
 
-(* ... every record of it with TTL 0 ... *)
-Theorem C09_goodbye_ttl_zero : forall s addrs, is_goodbye (goodbye_msg s addrs) = true.
+Theorem C09_goodbye_only_where_announced : forall st s i v4 m,
+  In (i, v4, m) (goodbyes_of st s) -> announced_on i s = true /\ exists itf, In itf (d_intfs st) /\ if_index itf = i.
+Proof. exact goodbye_only_where_announced. Qed.
+
+(* ... every record of it with TTL 0. *)
+Theorem C09_goodbye_ttl_zero : forall rg s addrs, is_goodbye (goodbye_msg rg s addrs) = true.
 Proof. exact goodbye_all_ttl0. Qed.
 
-(* ... and for a service that was not renamed and is announced wherever it has addresses this IS
-   the goodbye the property asks for (names most recently announced, only where announced). *)
-Theorem C09_goodbye_matches_property : forall st s,
-  no_renames st s -> announced_where_addressed st s ->
-  spec_goodbyes st true true s = spec_goodbyes st false false s.
-Proof. exact goodbyes_match_property. Qed.
-
-(* THE REPEAT: the identical message is queued once for now + 120 and sent again unchanged. *)
+(* THE REPEAT: the identical message is queued once for now + 120 and sent again unchanged on
+   the interface and family it was first sent on (formerly refuted for IPv4). *)
 Theorem C09_goodbye_repeat_scheduled : forall st k ch now s,
   aget k (d_svcs st) = Some s ->
   d_retrans (fst (unregister st k ch now))
   = d_retrans st ++ map (fun g : N * bool * omsg => let '(i, v4, m) := g in (now + 120, UnregisterResend m i v4))
-                        (goodbyes_of s (d_intfs st)).
+                        (goodbyes_of st s).
 Proof. exact unregister_schedules_repeat. Qed.
 
-Theorem C09_goodbye_repeat_same_packet : forall st m i v4,
-  unregister_resend st m i v4 = [] \/ unregister_resend st m i v4 = [OResend i v4 m].
+Theorem C09_goodbye_repeat_same_packet_same_interface : forall st m i v4,
+  unregister_resend st m i v4 = [] \/ unregister_resend st m i v4 = [OSend i v4 Mcast m].
 Proof. exact unregister_resend_same_packet. Qed.
 
 (* SHUTDOWN: goodbyes once for every registered service, nothing left to repeat, the thread ends. *)
 Theorem C09_shutdown_goodbyes_once : forall st,
   let (st', os) := cleanup st in
   d_svcs st' = [] /\ d_retrans st' = [] /\ d_dead st' = true /\
-  os = flat_map (fun ks => map send_of (goodbyes_of (snd ks) (d_intfs st))) (d_svcs st) ++ [OExit].
+  os = flat_map (fun ks => map send_of (goodbyes_of st (snd ks))) (d_svcs st) ++ [OExit].
 Proof. exact cleanup_spec. Qed.
 
 (* QUIET AFTERWARDS: the pending second announcement of an unregistered service finds nothing,
@@ -92,15 +94,13 @@ Theorem C09_no_answer_without_announced_service : forall st g now,
   none_announced st (g_if g) -> snd (handle_query st g now) = [].
 Proof. exact handle_query_silent. Qed.
 
-(* The property text is FALSE of the code in three decidable classes (witnesses run on the real
-   daemon; chk_C09 codes): 11 goodbye under pre-rename names; 12 goodbye where the service was
-   still probing; 14 the repeated IPv4 goodbye leaves on the interface of the last IPv4 send. *)
-Theorem C09_goodbye_uses_old_names_refuted : only_known 11 (self9 w_renamed_ifs w_renamed_its).
-Proof. exact w_renamed_known9. Qed.
-Theorem C09_goodbye_while_probing_refuted : only_known 12 (self9 w_probing_goodbye_ifs w_probing_goodbye_its).
-Proof. exact w_probing_goodbye_known9. Qed.
-Theorem C09_goodbye_repeat_wrong_interface_refuted : only_known 14 (self9 w_resend_if_ifs w_resend_if_its).
-Proof. exact w_resend_if_known9. Qed.
+(* The three classes in which the code departed from the property are repaired; the former
+   witnesses (goodbye after a rename, unregister before the first probe, two IPv4 interfaces)
+   are accepted by chk_C09 now. *)
+Theorem C09_former_witnesses_accepted :
+  self9 w_renamed_ifs w_renamed_its = [] /\ self9 w_probing_goodbye_ifs w_probing_goodbye_its = [] /\
+  self9 w_resend_if_ifs w_resend_if_its = [].
+Proof. exact w_former_c09_accepted. Qed.
 
 (* History level, full statement (validated on every generated history by running chk_C09 on the
    model's own observation, NOT proved as a theorem):
@@ -124,15 +124,13 @@ Print Assumptions C09_unregister_status.
 Print Assumptions C09_unregister_replies_once.
 Print Assumptions C09_unregister_frame.
 Print Assumptions C09_goodbye_packets.
-Print Assumptions C09_goodbye_is_spec_of_the_code.
+Print Assumptions C09_goodbye_is_the_specified_one.
+Print Assumptions C09_goodbye_only_where_announced.
 Print Assumptions C09_goodbye_ttl_zero.
-Print Assumptions C09_goodbye_matches_property.
 Print Assumptions C09_goodbye_repeat_scheduled.
-Print Assumptions C09_goodbye_repeat_same_packet.
+Print Assumptions C09_goodbye_repeat_same_packet_same_interface.
 Print Assumptions C09_shutdown_goodbyes_once.
 Print Assumptions C09_no_reannouncement.
 Print Assumptions C09_no_answer_without_announced_service.
-Print Assumptions C09_goodbye_uses_old_names_refuted.
-Print Assumptions C09_goodbye_while_probing_refuted.
-Print Assumptions C09_goodbye_repeat_wrong_interface_refuted.
+Print Assumptions C09_former_witnesses_accepted.
 Print Assumptions C09_unregister_run.
